@@ -15,6 +15,13 @@ def WF : Pol → Prop
   | mat n m s => 1 ≤ n ∧ 1 ≤ m ∧ m ≤ s
   | prod p1 p2 st => p1.WF ∧ p2.WF ∧ p2.minSize ≤ st
 
+theorem wfb_iff (p : Pol) : p.wfb = true ↔ p.WF := by
+  induction p with
+  | scalar => simp [wfb, WF]
+  | vec n s => simp [wfb, WF]
+  | mat n m s => simp [wfb, WF, and_assoc]
+  | prod p1 p2 st ih1 ih2 => simp [wfb, WF, ih1, ih2, and_assoc]
+
 /-- the index domain, by recursion on the policy (an index tuple of a product is the concatenation of an index
 tuple of each factor); `inDom_iff` shows it is "every index below the extent of its dimension" -/
 def InDom : Pol → List Nat → Prop
